@@ -255,6 +255,21 @@ def gdesc(G, attr="flow"):
 def run(ctx):
     fp, rng = ctx.fp, ctx.rng
     thorough = not ctx.quick()
+    # ---- corpus: inputs that once exposed something, run first
+    from fpv import common as _c
+    for pth in sorted((_c.CORPUS / "C13").glob("*.json")):
+        c = json.loads(pth.read_text())
+        if c.get("class") != "MinFlowDecomp":
+            continue
+        for scale in (1, 2):
+            G = nx.DiGraph()
+            for u, v, f in c["edges"]:
+                G.add_edge(u, v, flow=f * scale)
+            copts = dict(c.get("options", {}))
+            mk = lambda: fp.MinFlowDecomp(G, flow_attr="flow", weight_type=int, optimization_options=dict(copts),
+                                          solver_options={"time_limit": 300})
+            sweep(ctx, "K3.corpus", "MinFlowDecomp", "stop", mk, [fp.kFlowDecomp],
+                  lambda m: ctx.model_hi("MinFlowDecomp", m), dict(gdesc(G), options=copts, corpus=pth.name), pairs=thorough)
     # ---- MinFlowDecomp
     for it in range(ctx.n(6, 40)):
         G = mfd_input(rng)
@@ -264,6 +279,7 @@ def run(ctx):
             opts["optimize_with_guessed_weights"] = True
         if it % 3 == 2:
             opts["use_min_gen_set_lowerbound"] = True
+            G = diamonds(rng)            # MinGenSet is slow on many distinct values: keep these inputs small
         mk = lambda: fp.MinFlowDecomp(G, flow_attr="flow", weight_type=int, optimization_options=dict(opts),
                                       solver_options={"time_limit": 300})
         sweep(ctx, "K3.MinFlowDecomp", "MinFlowDecomp", "stop", mk, [fp.kFlowDecomp],
